@@ -20,12 +20,13 @@ static const char *const fault_names[] = { "thread_preempt", "irq_inject", "put_
 					   "get_refused_empty", "stall", NULL };
 enum { P_WRAPPED, P_FULL_WHILE_GET_IN_FLIGHT, P_EMPTY_WHILE_PUT_IN_FLIGHT, P_PUTCHAR_SPUN,
        P_BIG_RING, P_LEN2, P_IRQ_IN_PUT, P_IRQ_IN_GET, P_MODE_THR, P_MODE_IRQ_PROD, P_MODE_IRQ_CONS,
-       P_HIGH_BYTE, P_OVERLAP, P_HUGE_RING };
+       P_HIGH_BYTE, P_OVERLAP, P_HUGE_RING, P_LONG_LIVED };
 static const char *const probe_names[] = {
 	"index_wrapped", "put_refused_while_get_in_flight", "get_empty_while_put_in_flight",
 	"putchar_had_to_spin", "ring_of_64_or_more", "ring_of_length_2", "interrupt_inside_put",
 	"interrupt_inside_get", "mode_threads", "mode_irq_producer", "mode_irq_consumer",
-	"byte_value_128_or_more", "put_and_get_overlapped", "ring_longer_than_65534_bytes", NULL };
+	"byte_value_128_or_more", "put_and_get_overlapped", "ring_longer_than_65534_bytes",
+	"more_than_65534_bytes_through_one_ring", NULL };
 
 #define MAXOPS 96
 
@@ -201,6 +202,12 @@ static void run(void)
 	uint32_t prerotate = sim_choose(2 * (buf_len > 40 ? 40 : buf_len) + 1);
 	if (buf_len >= 64 && sim_choose(2))
 		prerotate = buf_len - 1 - sim_choose(4);	/* next to the wrap */
+	if (sim_chance(1, 500)) {
+		/* a long-lived ring: more bytes through it than a 16-bit (or 17-bit) counter can count */
+		static const uint32_t lives[] = { 65535, 65536, 65537, 70000, 131073, 140000 };
+		prerotate = lives[sim_choose(6)] + sim_choose(buf_len);
+		sim_probe(P_LONG_LIVED);
+	}
 	if (prerotate + prefill > 280000)
 		prerotate = sim_choose(80);
 	npops = 1 + sim_choose(MAXOPS - 1);
